@@ -503,7 +503,7 @@ class MessageManager(interfaces.TokenInterface, interfaces.MessageManager):
                 piggybacked_on = mid
 
                 if no_response:
-                    new_message = Message(code=EMPTY, mid=mid, mtype=ACK)
+                    new_message = Message(code=EMPTY, _mid=mid, _mtype=ACK)
                     new_message.remote = message.remote.as_response_address()
                     message = new_message
                     self.log.debug(
